@@ -219,6 +219,18 @@ def gen_items(rng, decls, toks, depth=0, nitems=None, fancy=True, used_titles=No
     titles_here = {}
     for _ in range(n):
         d = rng.choice(usable)
+        if to.get('pathnames') and d.typ == 'sec' and not d.is_multi and not (d.flags & (F_NODEFAULT | F_KEYSTRVAL | F_TITLE)) and rng.random() < 0.2:
+            # an option of a plain section addressed by path from outside the section
+            cand = [x for x in (d.sub or []) if x.typ in ('int', 'float', 'bool', 'str') and not x.simple and '|' not in x.name and '=' not in x.name]
+            if cand and word_ok(d.name):
+                x = rng.choice(cand)
+                sub_toks = []
+                gen_items(rng, [x], sub_toks, depth + 1, 1, fancy, to=dict(to, nocase=False))
+                if sub_toks and sub_toks[0][0] == 'name' and word_ok(x.name):
+                    nm = d.name + '|' + x.name
+                    sub_toks[0] = ['name', nm, nm]
+                    toks.extend(sub_toks)
+                    continue
         name = d.name
         if to.get('nocase') and rng.random() < 0.5:
             name = ''.join(c.upper() if rng.random() < 0.5 else c.lower() for c in name)
